@@ -130,7 +130,7 @@ Section KalmanExact.
     - intros [t|] _; apply mspec_ret; exact I.
   Qed.
 
-  Lemma kalman_step_spec s off : mspec cmdP_exact (kalman_step dbg s off) (fun _ => True).
+  Lemma kalman_step_spec s off : mspec cmdP_exact (kalman_step dbg cfg s off) (fun _ => True).
   Proof.
     unfold kalman_step.
     eapply mspec_bind; [apply mspec_lift with (Q := fun _ => True); auto|]. intros d _.
@@ -267,7 +267,7 @@ Section KalmanCmds.
   Proof. unfold change_frequency. now intros ->. Qed.
 
   Lemma kalman_step_log s off c :
-    c_log (fst (kalman_step dbg s off c)) =
+    c_log (fst (kalman_step dbg cfg s off c)) =
     match d_from_seconds dbg (-. off) with
     | Ok d => StepClock d :: c_log c
     | Panic _ => c_log c
@@ -276,8 +276,8 @@ Section KalmanCmds.
     unfold kalman_step, mbind, mcall, clk_call, mlift, mret.
     destruct (d_from_seconds dbg (-. off)) as [d|]; simpl; [|reflexivity].
     destruct (c_replies c) as [|[time|] rs]; simpl; try reflexivity.
-    destruct (base_offset_steer dbg (k_run s) (-. off)); simpl; [|reflexivity].
-    destruct (base_offset_steer dbg (k_wan s) (-. off)); reflexivity.
+    destruct (base_offset_steer dbg cfg (k_run s) (-. off)); simpl; [|reflexivity].
+    destruct (base_offset_steer dbg cfg (k_wan s) (-. off)); reflexivity.
   Qed.
 
   Lemma mlift_bind_log {A B} (o : outcome A) (f : A -> CM B) c :
@@ -315,7 +315,7 @@ Section KalmanCmds.
       rewrite (bind_ret_log (change_frequency dbg cfg s t) (fun s' => mean_delay_update dbg s')
                             (fun s' md => (s', (true, md)))).
       apply change_frequency_log.
-    - rewrite (bind_ret_log (kalman_step dbg s (base_offset (k_run s))) (fun s' => mean_delay_update dbg s')
+    - rewrite (bind_ret_log (kalman_step dbg cfg s (base_offset (k_run s))) (fun s' => mean_delay_update dbg s')
                             (fun s' md => (s', (false, md)))).
       apply kalman_step_log.
   Qed.
